@@ -216,6 +216,7 @@ type World struct {
 	logHash    uint64
 	Log        []string
 	KeepLog    bool
+	PortMaps   []PortMap
 	DebugDraws bool
 	DebugY     bool
 	Events     []Event
